@@ -176,10 +176,18 @@ def sp_smooth_formula(w, X, O):
     return [('formula', syn(ident(O.fp, z3.fpMul(RNE, z3.fpMul(RNE, t, t), z3.fpSub(RNE, K(3, w), z3.fpMul(RNE, K(2, w), t))))))]
 def sp_smooth_range(w, X, O): return [('ge-zero', z3.fpGEQ(O.fp, K(0, w))), ('le-one', z3.fpLEQ(O.fp, K(1, w)))]
 def mix_formula(x, y, a, w): return z3.fpAdd(RNE, z3.fpMul(RNE, x, z3.fpSub(RNE, K(1, w), a)), z3.fpMul(RNE, y, a))     # GLSL: x*(1-a) + y*a
+def at_const(goal, var, val):
+    """var = val -> goal, with the constant propagated into goal (a = 0 / a = 1 make the multiplications of mix trivial once they are constants; with a symbolic a the double instances
+    need 10-40 s).  The hypothesis is kept so that a counterexample carries the constant and is replayed with it."""
+    c = z3.BitVecVal(val, var.size())
+    return z3.Implies(var == c, goal if z3.is_bv_value(var) else z3.simplify(z3.substitute(goal, (var, c))))
+def fbits(v, w):
+    import struct
+    return struct.unpack('<I', struct.pack('<f', v))[0] if w == 32 else struct.unpack('<Q', struct.pack('<d', v))[0]
 def sp_mix(w, X, O):
-    x, y, a = [F(v) for v in X]
+    x, y, a = [F(v) for v in X]; e0 = z3.Implies(fin(x, y), z3.fpEQ(O.fp, x)); e1 = z3.Implies(fin(x, y), z3.fpEQ(O.fp, y))
     return [('formula', syn(ident(O.fp, mix_formula(x, y, a, w)))),     # syn: one canonical operand order of the commutative fp.add/fp.mul on both sides
-            ('end-a-zero', z3.Implies(z3.And(fin(x, y), z3.fpEQ(a, K(0, w))), z3.fpEQ(O.fp, x))), ('end-a-one', z3.Implies(z3.And(fin(x, y), z3.fpEQ(a, K(1, w))), z3.fpEQ(O.fp, y)))]
+            ('end-a-zero', at_const(e0, X[2], fbits(0.0, w))), ('end-a-negative-zero', at_const(e0, X[2], fbits(-0.0, w))), ('end-a-one', at_const(e1, X[2], fbits(1.0, w)))]
 def sp_mixb(w, X, O): return [('select', same_float(O, z3.If(X[2] == 1, X[1], X[0])))]
 def mod_formula(x, y): return z3.fpSub(RNE, x, z3.fpMul(RNE, y, rti(RTN, z3.fpDiv(RNE, x, y))))                            # GLSL: x - y*floor(x/y)
 def sp_mod(w, X, O): return [('formula', syn(ident(O.fp, mod_formula(F(X[0]), F(X[1])))))]
@@ -320,7 +328,7 @@ def cut_hermite(S, w, res, cuts, hy, rng=True, upper=True, ends=False):
         dom = [z3.fpGEQ(t, K(0, w)), z3.fpLEQ(t, K(1, w))]; inst = z3.And(z3.fpGEQ(tmp, K(0, w)), z3.fpLEQ(tmp, K(1, w)))
         pv = fresh_fp(S, w, 'cut_hermite'); cuts.append((top, pv))
         if rng and _cached(S, ('p0', w, P.sexpr()), lambda: lemma(S, 'hermite-ge-zero', z3.fpGEQ(P, K(0, w)), dom, S.cap(120, 400), w)): hy.append(z3.Implies(inst, z3.fpGEQ(pv, K(0, w))))
-        if rng and upper and _cached(S, ('p1', w, P.sexpr()), lambda: lemma(S, 'hermite-le-one', z3.fpLEQ(P, K(1, w)), dom, S.cap(300, 1500), w, mandatory=(w == 32))): hy.append(z3.Implies(inst, z3.fpLEQ(pv, K(1, w))))
+        if rng and upper and _cached(S, ('p1', w, P.sexpr()), lambda: lemma(S, 'hermite-le-one', z3.fpLEQ(P, K(1, w)), dom, S.cap(600, 1200), w, mandatory=(w == 32))): hy.append(z3.Implies(inst, z3.fpLEQ(pv, K(1, w))))
         if ends and _cached(S, ('e0', w, P.sexpr()), lambda: lemma(S, 'hermite-at-zero', z3.fpEQ(P, K(0, w)), [z3.fpEQ(t, K(0, w))], S.cap(120, 400), w)): hy.append(z3.Implies(z3.fpEQ(tmp, K(0, w)), z3.fpEQ(pv, K(0, w))))
         if ends and _cached(S, ('e1', w, P.sexpr()), lambda: lemma(S, 'hermite-at-one', P == K(1, w), [t == K(1, w)], S.cap(120, 400), w)): hy.append(z3.Implies(tmp == K(1, w), pv == K(1, w)))
 def eh_smooth_div(S, w):
@@ -385,7 +393,7 @@ def add(*a, **k): TAB.append(E(*a, **k))
 for f, m in (('floor', RTN), ('ceil', RTP), ('trunc', RTZ), ('round', RNA)):
     add(f, ['T'], 'T', 'glm::%s({0})' % f, sp_rti(m), variants=('v',), bounds='all x (NaN -> NaN, sign of zero exact)', mut=sp_rti(RNE), group='rounding')
 add('roundEven', ['T'], 'T', 'glm::roundEven({0})', sp_rti(RNE, exact=False, label='rne'), variants=('v',), known=['KF-C11-roundEven-nonfinite'], side=False,
-    bounds='all x, by value (+0 == -0)', mut=sp_rti(RNA, exact=False))
+    bounds='all x, by value (+0 == -0)', mut=sp_rti(RNA, exact=False), timeout=(400, 600))
 add('fract', ['T'], 'T', 'glm::fract({0})', sp_fract, variants=('v',), bounds='definition: all x; range: all finite x')
 add('abs', ['T'], 'T', 'glm::abs({0})', sp_abs, variants=('v',), bounds='all x', group='abs_sign')
 add('sign', ['T'], 'T', 'glm::sign({0})', sp_sign, variants=('v',), bounds='all x', group='abs_sign')
@@ -415,33 +423,33 @@ add('fclamp', ['T', 'T', 'T'], 'T', 'glm::fclamp({0}, {1}, {2})', sp_fclamp, var
 add('clamp', ['T', 'T', 'T'], 'T', 'glm::clamp({0}, {1}, {2})', sp_clamp, variants=('vvv', 'vss'), bounds='definition: all operands; range facts: non-NaN, minVal <= maxVal')
 add('saturate', ['T'], 'T', 'glm::saturate({0})', sp_saturate, variants=('v',), Ls=(2, 3, 4), bounds='all x', group='compat')
 add('step', ['T', 'T'], 'T', 'glm::step({0}, {1})', sp_step, variants=('vv', 'sv'), bounds='all edge, x incl. NaN', mut=lambda w, X, O: [('m', ident(O.fp, z3.If(z3.fpLEQ(F(X[1]), F(X[0])), K(0, w), K(1, w))))])
-add('smoothstep', ['T', 'T', 'T'], 'T', 'glm::smoothstep({0}, {1}, {2})', sp_smooth_ends, pre=pre_smooth, variants=('vvv', 'ssv'), bounds='finite, edge0 < edge1, differences do not overflow', timeout=(120, 400), eh=eh_smooth_div)
-add('smoothstep_formula', ['T', 'T', 'T'], 'T', 'glm::smoothstep({0}, {1}, {2})', sp_smooth_formula, variants=('vvv', 'ssv'), bounds='IEEE evaluation of the GLSL formula, all operands', timeout=(120, 400), group='smoothstep')
+add('smoothstep', ['T', 'T', 'T'], 'T', 'glm::smoothstep({0}, {1}, {2})', sp_smooth_ends, pre=pre_smooth, variants=('vvv', 'ssv'), bounds='finite, edge0 < edge1, differences do not overflow', timeout=(300, 600), eh=eh_smooth_div)
+add('smoothstep_formula', ['T', 'T', 'T'], 'T', 'glm::smoothstep({0}, {1}, {2})', sp_smooth_formula, variants=('vvv', 'ssv'), bounds='IEEE evaluation of the GLSL formula, all operands', timeout=(300, 600), group='smoothstep')
 add('smoothstep_at_edge1', ['T', 'T', 'T'], 'T', 'glm::smoothstep({0}, {1}, {2})', lambda w, X, O: [('one-at-edge-one', ident(O.fp, K(1, w)))], pre=pre_smooth, variants=('vvv', 'ssv'), alias=(2, 1),
-    bounds='x = edge1 (same value passed twice), finite, edge0 < edge1, difference does not overflow', timeout=(120, 400), eh=eh_smooth_div, group='smoothstep')
+    bounds='x = edge1 (same value passed twice), finite, edge0 < edge1, difference does not overflow', timeout=(300, 600), eh=eh_smooth_div, group='smoothstep')
 add('smoothstep_range', ['T', 'T', 'T'], 'T', 'glm::smoothstep({0}, {1}, {2})', lambda w, X, O: sp_smooth_range(w, X, O)[:1 if w == 64 else 2], pre=pre_smooth, variants=('vvv',),
-    bounds='finite, edge0 < edge1, differences do not overflow; double: only >= 0', timeout=(120, 400), eh=lambda S, w: eh_smooth_range(S, w, upper=(w == 32)))
+    bounds='finite, edge0 < edge1, differences do not overflow; double: only >= 0', timeout=(300, 600), eh=lambda S, w: eh_smooth_range(S, w, upper=(w == 32)))
 add('smoothstep_le_one', ['T', 'T', 'T'], 'T', 'glm::smoothstep({0}, {1}, {2})', lambda w, X, O: sp_smooth_range(w, X, O)[1:], pre=pre_smooth, types=('f64',), mandatory=False, heavy=True,
-    bounds='finite, edge0 < edge1, differences do not overflow', timeout=(120, 400), eh=eh_smooth_range, group='smoothstep_le_one')
-add('mix', ['T', 'T', 'T'], 'T', 'glm::mix({0}, {1}, {2})', sp_mix, variants=('vvv', 'vvs'), bounds='formula: all operands; end values: finite x, y', timeout=(120, 400))
-add('lerp', ['T', 'T', 'T'], 'T', 'glm::lerp({0}, {1}, {2})', sp_mix, variants=('vvv', 'vvs'), Ls=(2, 3, 4), bounds='formula: all operands; end values: finite x, y', timeout=(120, 400), group='compat')
+    bounds='finite, edge0 < edge1, differences do not overflow', timeout=(300, 600), eh=eh_smooth_range, group='smoothstep_le_one')
+add('mix', ['T', 'T', 'T'], 'T', 'glm::mix({0}, {1}, {2})', sp_mix, variants=('vvv', 'vvs'), bounds='formula: all operands; end values: finite x, y', timeout=(300, 600))
+add('lerp', ['T', 'T', 'T'], 'T', 'glm::lerp({0}, {1}, {2})', sp_mix, variants=('vvv', 'vvs'), Ls=(2, 3, 4), bounds='formula: all operands; end values: finite x, y', timeout=(300, 600), group='compat')
 add('mixb', ['T', 'T', 'bool'], 'T', 'glm::mix({0}, {1}, {2})', sp_mixb, variants=('vvv', 'vvs'), bounds='all x, y (bit-exact), both selector values')
 add('mod', ['T', 'T'], 'T', 'glm::mod({0}, {1})', sp_mod, variants=('vv', 'vs'), bounds='IEEE evaluation of x - y*floor(x/y), all operands')
-add('mod_one', ['T'], 'T', 'glm::mod({0}, T_(1))', sp_mod_one, bounds='y = 1, all finite x', timeout=(120, 400), heavy=True)
+add('mod_one', ['T'], 'T', 'glm::mod({0}, T_(1))', sp_mod_one, bounds='y = 1, all finite x', timeout=(300, 600), heavy=True)
 add('fmod', ['T', 'T'], 'T', 'glm::fmod({0}, {1})', sp_fmod, variants=('vv', 'vs'), bounds='routing/lifting only (fmod uninterpreted)', group='routing')
 add('atan2', ['T', 'T'], 'T', 'glm::atan2({0}, {1})', sp_atan2, variants=('vv',), Ls=(2, 3, 4), bounds='routing/lifting only (atan2 uninterpreted)', group='routing')
-add('modf', ['T'], ['T', 'T'], None, sp_modf, variants=('v',), bounds='all x', timeout=(300, 600),
+add('modf', ['T'], ['T', 'T'], None, sp_modf, variants=('v',), bounds='all x', timeout=(600, 900),
     body_s='T_ ip; o[0] = glm::modf(a[0], ip); o2[0] = ip;', body_v='glm::vec<L_,T_> ip; stv(o, glm::modf(ldv<L_,T_>(a), ip)); stv(o2, ip);')
-add('frexp', ['T'], ['T', 'int'], None, sp_frexp, variants=('v',), bounds='all x', timeout=(300, 600),
+add('frexp', ['T'], ['T', 'int'], None, sp_frexp, variants=('v',), bounds='all x', timeout=(600, 900),
     body_s='int e; o[0] = glm::frexp(a[0], e); o2[0] = e;', body_v='glm::vec<L_,int> e; stv(o, glm::frexp(ldv<L_,T_>(a), e)); stv(o2, e);')
-add('ldexp', ['T', 'int'], 'T', 'glm::ldexp({0}, {1})', sp_ldexp, variants=('vv',), bounds='all finite x, all int exponents', timeout=(300, 600))
-add('frexp_ldexp', ['T'], 'T', None, sp_frexp_ldexp, bounds='all finite x', timeout=(300, 600), heavy=True, body_s='int e; T_ m = glm::frexp(a[0], e); o[0] = glm::ldexp(m, e);')
+add('ldexp', ['T', 'int'], 'T', 'glm::ldexp({0}, {1})', sp_ldexp, variants=('vv',), bounds='all finite x, all int exponents', timeout=(600, 900))
+add('frexp_ldexp', ['T'], 'T', None, sp_frexp_ldexp, bounds='all finite x', timeout=(600, 900), heavy=True, body_s='int e; T_ m = glm::frexp(a[0], e); o[0] = glm::ldexp(m, e);')
 add('wrap_clamp', ['T'], 'T', 'glm::clamp({0})', sp_wrap_clamp, variants=('v',), bounds='all x', group='wrap')
 add('repeat', ['T'], 'T', 'glm::repeat({0})', sp_repeat, variants=('v',), bounds='all finite x', group='wrap')
 add('mirrorClamp', ['T'], 'T', 'glm::mirrorClamp({0})', sp_mirrorClamp, variants=('v',), bounds='all finite x', group='wrap', eh=eh_abs)
 add('mirrorRepeat', ['T'], 'T', 'glm::mirrorRepeat({0})', sp_mirrorRepeat, variants=('v',), bounds='all finite x', timeout=(150, 500), eh=eh_mirror)
-add('iround', ['T'], 'int', 'glm::iround({0})', sp_iround(False), pre=pre_iround(False), variants=('v',), bounds='0 <= x < 2^31 - 0.5 (every x whose nearest integer is an int)', timeout=(120, 400))
-add('uround', ['T'], 'unsigned', 'glm::uround({0})', sp_iround(True), pre=pre_iround(True), variants=('v',), bounds='0 <= x < 2^32 - 0.5 (every x whose nearest integer is an unsigned)', timeout=(120, 400))
+add('iround', ['T'], 'int', 'glm::iround({0})', sp_iround(False), pre=pre_iround(False), variants=('v',), bounds='0 <= x < 2^31 - 0.5 (every x whose nearest integer is an int)', timeout=(300, 600))
+add('uround', ['T'], 'unsigned', 'glm::uround({0})', sp_iround(True), pre=pre_iround(True), variants=('v',), bounds='0 <= x < 2^32 - 0.5 (every x whose nearest integer is an unsigned)', timeout=(300, 600))
 add('openBounded', ['T', 'T', 'T'], 'bool', 'glm::openBounded({0}, {1}, {2})', sp_bounded(True), variants=('vvv',), Ls=(1, 2, 3, 4), bounds='all operands', group='compat')
 add('closeBounded', ['T', 'T', 'T'], 'bool', 'glm::closeBounded({0}, {1}, {2})', sp_bounded(False), variants=('vvv',), Ls=(1, 2, 3, 4), bounds='all operands', group='compat')
 def sp_epsilon(eq):
@@ -556,7 +564,7 @@ def run_entry(S, e, t, var=None, L=0):
     mut = None
     if e.mut and var is None:
         def mut(i, o): return [('m.' + l, gl) for l, gl in e.mut(w, Xs(i, 0), Os(o, 0))][:1]
-    to = S.cap(*e.timeout) if e.timeout else S.cap(150, 300)
+    to = S.cap(*e.timeout) if e.timeout else S.cap(300, 400)
     ins = None; kw = {}
     if e.alias:         # the same symbolic value is passed for two arguments (translator validation by independent sampling is switched off for these)
         ins = mkvars(U.fns[wname(e, t, var, L)]); dst, src = e.alias
@@ -586,7 +594,7 @@ def job_lemmas(S):
 # f64: every length for the groups that are decided in milliseconds, scalar only for the rest (the vector code is the same template as for float).  thorough: everything + mutant twins.
 Q_F32_L3_ONLY = {'smoothstep', 'smoothstep_range', 'roundEven', 'frexp', 'modf', 'ldexp'}
 Q_F64_VEC = {'rounding', 'abs_sign', 'classify', 'minmax', 'minmaxN', 'fmin3', 'fmax3', 'fmin4', 'fmax4', 'fminmax2', 'fclamp', 'clamp', 'step', 'mixb', 'mix', 'mod', 'routing', 'compat', 'epsilon', 'iround', 'uround'}
-JOB_CAP = {'quick': 600, 'thorough': 3000}
+JOB_CAP = {'quick': 900, 'thorough': 3000}
 def jobs(tier):
     q = tier == 'quick'; J = []
     groups = {}
@@ -609,4 +617,7 @@ def jobs(tier):
     for t in ('f32', 'f64'):
         J.append(('constants_' + t, job_constants(t, CONST_NAMES)))
     J.append(('ieee_lemmas', job_lemmas))
+    first = ['smoothstep_range_f32', 'frexp_f64', 'modf_f64', 'frexp_ldexp_f64', 'ldexp_f64', 'roundEven_f64', 'frexp_f32', 'smoothstep_range_f64', 'smoothstep_f64', 'frexp_ldexp_f32', 'roundEven_f32',
+             'mirrorRepeat_f64', 'modf_f32', 'ldexp_f32', 'fract_f64', 'wrap_f64', 'smoothstep_f32']          # the long jobs start first (the pool takes jobs in list order)
+    J.sort(key=lambda j: first.index(j[0]) if j[0] in first else len(first))
     return J
